@@ -1,6 +1,6 @@
 /-
 Line-protocol driver for Model/Shm.lean (serves C08 and C09).
-  {"op":"init","cap":n,"staleCreate":n,"staleRead":n}
+  {"op":"init","cap":n,"staleCreate":n,"staleRead":n}  or  {"op":"init","configured":n|null,"avail":n,"staleCreate":n,"staleRead":n}
   {"op":"add","k":..,"size":n,"deser":..,"t":n} | {"op":"cwrite","k":..,"size":n,"tok":n}
   {"op":"closeW","k":..} | {"op":"get","k":..,"t":n,"cands":[..]} | {"op":"closeR","k":..,"rdid":..}
   {"op":"purge","k":..} | {"op":"freeSpace"} | {"op":"io","id":n,"inj":"ok|fail|failLate"} | {"op":"cb","id":n}
@@ -89,7 +89,10 @@ structure DSt where
 
 def c08Step' (s : St) (j : Json) : St × Json :=
   if getStr j "op" == "init" then
-    let s' := init (getNat j "cap") (getNat j "staleCreate") (getNat j "staleRead")
+    -- with "avail" the capacity is computed as Manager.__init__ does (configured value, null = not configured)
+    let s' := match j.getObjValAs? Nat "avail" with
+      | .ok avail => boot (j.getObjValAs? Nat "configured").toOption avail (getNat j "staleCreate") (getNat j "staleRead")
+      | _ => init (getNat j "cap") (getNat j "staleCreate") (getNat j "staleRead")
     (s', Json.mkObj [("out", Json.str "init"), ("st", stJson s')])
   else if getStr j "op" == "ioMid" then
     let (s', o) := ioMidPurge s (getNat j "id") (getStr j "k")
